@@ -18,8 +18,9 @@ P2 = {
  "C16": "per program, no precondition on field values (None / any length / any int >= 0 / any case data): normal return of serialize implies VALID_T(obj) as derived from the XML; only SerializationError / the writer's ValueError escape; None-use, index and negative-writer-argument are obligations",
  "C19": "per program: class-shape obligations on the emitted AST (read-only properties only, no __setattr__/__slots__/setters), __init__ stores arguments unchanged with arrays as tuple copies, serialize never stores into the object, deserialized fields are of immutable sorts",
 }
-NOTE2 = ("Trusted: xmlsem (independent XML semantics = the specification), the ast->VC translator, z3 sequence theory, the abstract restatement of the "
-         "EoWriter/EoReader contracts (proved against the real bodies in C09/C05; restated by hand for the sequence theory; exercised natively). "
+NOTE2 = ("Trusted: xmlsem (independent XML semantics = the specification), the ast->VC translator, z3 sequence theory, the abstract writer / reader of E2 "
+         "(sequence / state-transformer form of the EoWriter/EoReader contracts, which are proved against the real bodies in C09/C05; linked to them by the "
+         "lemmas of lemmas/reader_algebra.py and lemmas/writer_algebra.py discharged in each check's closure run; remaining meta-step: pointwise array form = sequence form). "
          "The set of programs is enumerated, not all programs. Full list in each evidence file.")
 NOTE = ("Trusted: the ast->VC translator /verif/pyvc, z3 5.1 (+cvc5 1.0.3, z3 4.8.12 for unknowns / thorough cross-check), spec vocabulary "
         "in contracts/spec.py, modelled CPython builtins, cp1252 codec as pointwise external tables. Assumed: mathematical ints, no aliasing "
@@ -54,7 +55,7 @@ P3 = {
          "runtime-checked round-trip contract on the real generated classes (bounded stand-in for the contract-based proof)"),
  "C14": ("exploration", "BOUNDED stand-in (not proved): ProtocolEnumMeta.__call__ is six lines delegating to CPython's EnumMeta.__call__ / int.__new__, whose behaviour a VC could only assume; its runtime contract (the statement, clause by clause) is evaluated on hand-written and generated enums x integers under both installed interpreters",
          "runtime-checked contract on the real ProtocolEnumMeta.__call__ under CPython 3.11 and 3.12 (bounded stand-in)"),
- "C17": ("exploration", "PROVED leaf guards + BOUNDED placement: 16 generator functions under contract and discharged (the eight FieldCodeGenerator._validate_* as `raises <=> RULE`, _check_optional_field, _generate_break, _make_packet_suffix, _create_type_with_specified_length; generate_instruction and _generate_field/_array/_length as one-directional must_raise contracts with opaque calls); 'wherever it occurs' is bounded: the real generator is run on the statement's rule catalogue x nesting positions x files and on every enumerated instruction sequence the independent rule reader xmlsem.wellformed finds ill-formed; it must raise and write no module for the offending class",
+ "C17": ("exploration", "PROVED leaf guards and per-step flag threading + BOUNDED composition: 21 generator functions under contract and discharged (the eight FieldCodeGenerator._validate_* as `raises <=> RULE`, _check_optional_field, _generate_break, _make_packet_suffix, _create_type_with_specified_length; generate_instruction, _generate_field/_array/_length and SwitchCodeGenerator.generate_case as one-directional must_raise contracts with opaque calls; placement transfer contracts on generate_instruction, _generate_field/_array/_length, _generate_dummy, _generate_chunked, _generate_switch, generate_case, generate_case_data_type; the frame assumption of the opaque calls is scanned syntactically on every run); that the flags an instruction sees are those of its syntactic position is the composition of these steps (meta-step), and 'wherever it occurs' as a whole is bounded: the real generator is run on the statement's rule catalogue x nesting positions x files and on every enumerated instruction sequence the independent rule reader xmlsem.wellformed finds ill-formed; it must raise and write no module for the offending class",
          "runtime post-condition of the real generator over a rule-violation catalogue (bounded stand-in)"),
  "C18": ("exploration", "BOUNDED stand-in (not proved): generation over valid trees x hash seeds x shuffled directory enumeration x both interpreters x pre-populated output must be byte-identical, complete and importable with every declared type exported; the code carrying this (set iteration, sorting, list surgery during iteration, os.walk, file writes) is outside the VC generator's fragment",
          "runtime-checked contracts on ProtocolCodeGenerator.generate / CodeBlock.to_string outputs (bounded stand-in)"),
